@@ -318,6 +318,15 @@ pub fn verify_witness<T: HashAlgorithm>(
     }
     // verify_update wants paths ascending; the witness does not promise that order
     updates.sort_by(|a, b| a.inner.path().cmp(b.inner.path()));
+    if std::env::var("NVH_DEBUG").is_ok() {
+        for (i, wp) in witness.path_proofs.iter().enumerate() {
+            eprintln!("path {i}: depth {} sibs {} terminal {:?}", wp.path.depth(), wp.inner.siblings.len(),
+                      match &wp.inner.terminal { nomt::proof::PathProofTerminal::Leaf(l) => format!("Leaf({})", hex::encode(l.key_path)), nomt::proof::PathProofTerminal::Terminator(t) => format!("Term(depth {})", t.depth()) });
+            eprintln!("    pos bits {:?}", wp.path.path().iter().by_vals().map(|b| if b {'1'} else {'0'}).collect::<String>());
+        }
+        for r in &witness.operations.reads { eprintln!("read {} -> path {}", hex::encode(r.key), r.path_index); }
+        for r in &witness.operations.writes { eprintln!("write {} -> path {} {:?}", hex::encode(r.key), r.path_index, r.value.map(|_| "some")); }
+    }
     match proof::verify_update::<T>(prev_root, &updates) {
         Ok(r) if r == new_root => (true, String::new()),
         Ok(_) => (false, "verify_update yields a root different from the session's".into()),
